@@ -864,11 +864,9 @@ namespace bloch::compiler {
         if (!check(TokenType::Semicolon)) {
             bool isFinal = match(TokenType::Final);
 
-            // forInit = variableDeclaration | expressionStatement: every primitive type starts
-            // a declaration here, as it does in a statement
-            if (check(TokenType::Int) || check(TokenType::Long) || check(TokenType::Float) ||
-                check(TokenType::Char) || check(TokenType::String) || check(TokenType::Bit) ||
-                check(TokenType::Qubit) || check(TokenType::Boolean)) {
+            // forInit = variableDeclaration | expressionStatement: whatever starts a declaration
+            // as a statement (an annotation, a primitive or a class type) starts one here
+            if (check(TokenType::At) || isTypeAhead()) {
                 initializer = parseVariableDeclaration(isFinal, false);
             } else {
                 if (isFinal) {
